@@ -259,6 +259,29 @@ def run(ctx, model_ok):
                         "slots": len(r.get("lines", []))})
 
 
+    # execute_session on a re-used Session: every run returns one slot per line of the text set last, also when the SAME
+    # text is set and evaluated again (what a front end does after a configuration change)
+    sess_cases = []
+    for si in range(ctx.n(120, 3000)):
+        t1 = L.text(rng, rng.choice([1, 2, 3, 6]))
+        t2 = t1 if rng.random() < 0.5 else L.text(rng, rng.choice([1, 2, 4]))
+        sess_cases.append((t1, t2))
+    sops = []
+    for si, (t1, t2) in enumerate(sess_cases):
+        sops += [{"op": "sess_new", "id": si % 7, "lang": "en"}, {"op": "sess_text", "id": si % 7, "text": t1}, {"op": "sess_run", "id": si % 7},
+                 {"op": "sess_text", "id": si % 7, "text": t2}, {"op": "sess_run", "id": si % 7}]
+    sres = C.run_impl(sops)
+    for si, (t1, t2) in enumerate(sess_cases):
+        for which, t in ((2, t1), (4, t2)):
+            r = sres[5 * si + which]
+            ctx.seen(("session", si, which, t), True)
+            ctx.count("session-runs")
+            cls = classify(r, t)
+            if cls:
+                ctx.oracle_fail({"class": "session:" + cls, "what": "execute_session on a re-used session did not return one slot per line",
+                                 "ops": sops[5 * si:5 * si + 5], "impl": r})
+
+
 def check_finding(ctx, f):
     res = C.run_impl(f["witness"]["ops"])
     text = [o for o in f["witness"]["ops"] if o["op"] == "exec"][-1]["text"]
